@@ -386,3 +386,28 @@ func chanName(v ssa.Value) string {
 	}
 	return v.Name()
 }
+
+// checkObjInv: the `requires [obj-...]` clauses of a closure's contract are its object invariant over the
+// captured variables; the code that creates the closure must establish them (obligation kind objinv).
+func (ex *Exec) checkObjInv(fv FuncV, pos token.Pos) {
+	fc := ex.findContract(fv.Fn)
+	if fc == nil || fc.Inline {
+		return
+	}
+	env := &Env{vars: map[string]TV{}, pkg: pkgOfFn(fv.Fn), old: ex.st}
+	for i, p := range fv.Fn.FreeVars {
+		if i < len(fv.Free) {
+			if ptr, ok := fv.Free[i].(PtrV); ok {
+				env.vars[p.Name()] = TV{ex.load(ptr), p.Type().(*types.Pointer).Elem()}
+			}
+		}
+	}
+	for i, r := range fc.Requires {
+		if !strings.HasPrefix(r.Label, "obj-") {
+			continue
+		}
+		g := ex.evalBool(r.E, ex.st, env)
+		ex.vc.Oblige("objinv", fmt.Sprintf("%s/%s", contractKey(fv.Fn), clauseName(r, i)), ex.st.pc, g, ex.posString(pos))
+		ex.calleesUsed[contractKey(fv.Fn)] = true
+	}
+}
